@@ -22,7 +22,12 @@ Ops == {"delete", "retype_scalar", "retype_map", "retype_seq", "null", "break_es
         \* a schema position referring to a component that contains itself through each composition keyword
         "cyclic_oneof", "cyclic_anyof", "cyclic_allof", "cyclic_items", "cyclic_required", "cyclic_addl", "cyclic_pair",
         \* tuple-form items with a null / scalar element
-        "tuple_null", "tuple_scalar"}
+        "tuple_null", "tuple_scalar",
+        \* a place that refers to a declared thing by name (security requirement, link operationId,
+        \* discriminator mapping) names an undeclared one
+        "unknown_name",
+        \* an enum element of another type than the schema's; a string value replaced by an unusual string
+        "wrong_enum_value", "odd_string"}
 Terminal == {"ok", "err"}
 
 \* the position of a located diagnostic exists in the document it names
@@ -41,6 +46,15 @@ OutcomeOK(o, doc) ==
   /\ (o.kind = "err" /\ o.located => InDocument(o, doc))
   /\ (o.kind = "err" => \A i \in 1..Len(o.locs) : LocOK(o.locs[i]))
   /\ (o.kind = "ok" => ~o.located /\ o.locs = <<>>)
+
+\* Faults that make the mutated node itself name something that does not exist (or, for
+\* an enum element, be a value the enum's own schema excludes) in an otherwise valid document: the failure is attributable to that node, so some position
+\* the diagnostic names is the start of a node on the way from the root to it or below
+\* it (onpath, computed by the harness from the mutated text).  Other in-place faults are
+\* not judged this way: a component made malformed is legitimately reported where it is
+\* referred to.
+SelfOffending == {"unknown_name", "dangling_ref", "break_escape", "wrong_enum_value"}
+Attributed(op, o) == (op \in SelfOffending /\ o.kind = "err" /\ o.locs # <<>>) => o.onpath
 
 \* A document that is valid before the fault and whose fault leaves data every schema
 \* admits is still accepted: "none" is the control and must be ok.
